@@ -14,8 +14,9 @@ case "$PROP" in
   C07) ENGINE=sim_iter; SET=plain ;;
   C32) ENGINE=sim_generator; SET=plain ;;
   C34) ENGINE=sim_serialize; SET=plain; DUAL=1 ;;
-  C05) ENGINE=sim_load; SET=a; DUAL=1 ;;
-  C21) ENGINE=sim_extdata; SET=plain ;;
+  C05) ENGINE=sim_load; SET=a; DUAL=1; export RTEN_NUM_THREADS=2 ;;
+  C21) ENGINE=sim_extdata; SET=plain; export RTEN_NUM_THREADS=2 ;;
+  C02|C24|C25) ENGINE=sim_exec; SET=a; export RTEN_NUM_THREADS=1 ;;
   *) echo "HARNESS-ERROR: no engine for property $PROP" >&2; exit 2 ;;
 esac
 TDIR="$ROOT/target/$SET"
